@@ -321,3 +321,183 @@ def r_typed_mix(ctx, fq):
                               % (f.name, show(a)[:70], show(b)[:40]), extracted=show(s)[:120],
                               inputs='check lengths of 33 or more (4 ** 32 does not fit a C long)')
     run.floor('R-TYPED', 'parameter-sized powers in %s' % fq, n, 1)
+
+
+# ----------------------------------------------------------------------------------------------
+BINDING_KINDS = ('param', 'assign', 'for', 'with', 'except', 'funcdef', 'import')
+
+
+def _nonempty_iterable(it):
+    """an iterable that certainly yields at least one element: a non-empty literal, range(c) with c > 0"""
+    if isinstance(it, ast.Constant) and isinstance(it.value, (str, bytes)) and len(it.value) > 0:
+        return True
+    if isinstance(it, (ast.Tuple, ast.List, ast.Set)) and it.elts:
+        return True
+    if isinstance(it, ast.Call) and isinstance(it.func, ast.Name) and it.func.id == 'range' and it.args and \
+            all(isinstance(a, ast.Constant) and isinstance(a.value, int) for a in it.args):
+        return len(range(*[a.value for a in it.args])) > 0
+    if isinstance(it, ast.Call) and isinstance(it.func, ast.Name) and it.func.id in ('enumerate', 'reversed', 'sorted', 'list') \
+            and it.args:
+        return _nonempty_iterable(it.args[0])
+    return False
+
+
+def possibly_unbound(ctx, f):
+    """forward must-analysis of definite assignment over the CFG: loads of a local name on a path without a binding.
+    The target of `for x in it` is bound only on the edge into the body (unless `it` is certainly non-empty)."""
+    f.build()
+    names = {d.name for d in f.defs if d.kind in BINDING_KINDS}
+    params = {d.name for d in f.defs if d.kind == 'param'}
+    bind = {}
+    for d in f.defs:
+        if d.kind in BINDING_KINDS and d.kind != 'param':
+            bind.setdefault(d.node, set()).add(d.name)
+    dele = {}
+    for d in f.defs:
+        if d.kind == 'delete':
+            dele.setdefault(d.node, set()).add(d.name)
+    ALL = frozenset(names)
+    din = {n.id: ALL for n in f.nodes}
+    din[f.entry.id] = frozenset(params)
+
+    bodies = {n.id: {m.id for m in f.nodes if n.id in m.loops} for n in f.nodes if n.kind in ('for', 'while')}
+
+    def runs_once(n):
+        """the loop body certainly executes before the loop is left normally"""
+        if n.kind == 'for':
+            return _nonempty_iterable(n.stmt.iter)
+        t = n.ast
+        if isinstance(t, ast.Constant):
+            return bool(t.value)
+        if isinstance(t, ast.Name) and t.id in names:
+            outside = [f.defs[i] for i in f.reaching(n.id, t.id) if f.defs[i].node not in bodies[n.id]]
+            return bool(outside) and all(d.kind == 'assign' and not d.path and isinstance(d.value, ast.Constant) and
+                                         bool(d.value.value) for d in outside)
+        return False
+    once = {i for i in bodies if runs_once(f.nodes[i])}
+    dback = {i: ALL for i in once}        # state carried by the back edges of loops that run at least once
+    back_seen = set()
+
+    def out_on_edge(n, s):
+        leaving = n.kind in ('for', 'while') and s not in bodies.get(n.id, ())
+        if leaving and n.id in once:
+            cur = set(dback[n.id]) if n.id in back_seen else set(ALL)       # left only after a complete first round
+        else:
+            cur = set(din[n.id])
+        b = bind.get(n.id, set())
+        if n.kind == 'for' and leaving and n.id not in once:
+            b = set()          # leaving the loop without an iteration: the loop variables were never bound
+        cur |= b
+        cur -= dele.get(n.id, set())
+        return cur
+    work = [f.entry.id]
+    seen_once = set()
+    rounds = 0
+    while work:
+        rounds += 1
+        if rounds > 200000:
+            raise AnalysisError("definite-assignment analysis of %s does not converge" % f.fq)
+        i = work.pop()
+        n = f.nodes[i]
+        for s in n.succ:
+            o = frozenset(out_on_edge(n, s))
+            changed_ = False
+            if s in once and i in bodies[s]:
+                nb = o & dback[s] if s in back_seen else o
+                if s not in back_seen or nb != dback[s]:
+                    dback[s] = nb
+                    back_seen.add(s)
+                    changed_ = True
+            new = o & din[s] if s in seen_once else o
+            if s not in seen_once or new != din[s]:
+                din[s] = new
+                seen_once.add(s)
+                changed_ = True
+            if changed_:
+                work.append(s)
+    hits = []
+
+    def guarded_like_a_binding(n, name):
+        """some binding of `name` that can reach n sits under path conditions that all hold at n too (same terms, same
+        polarity; terms carry definition versions, so a re-assigned test variable does not match) and is not inside a loop
+        that n is outside of"""
+        uc = set(ctx.conds(f, n))
+        for d in f.defs:
+            if d.name != name or d.kind not in BINDING_KINDS or d.kind == 'param':
+                continue
+            bn = f.nodes[d.node]
+            if d.kind == 'for' and not (bn.id in n.loops):
+                continue
+            if tuple(bn.loops) != tuple(n.loops[:len(bn.loops)]):
+                continue
+            if n.id not in f.reachable_from(bn.id) and n.id != bn.id:
+                continue
+            if set(ctx.conds(f, bn)) <= uc and ctx.conds(f, bn):
+                return True
+        return False
+    for n in f.nodes:
+        if n.id not in seen_once and n.id != f.entry.id:
+            continue            # unreachable
+        roots = ctx.roots(n)
+        for r in roots:
+            scoped = set()
+            for x in ast.walk(r):
+                if isinstance(x, (ast.ListComp, ast.SetComp, ast.DictComp, ast.GeneratorExp)):
+                    for g in x.generators:
+                        scoped |= {y.id for y in ast.walk(g.target) if isinstance(y, ast.Name)}
+                if isinstance(x, ast.Lambda):
+                    scoped |= {a.arg for a in x.args.args}
+                if isinstance(x, ast.NamedExpr) and isinstance(x.target, ast.Name):
+                    scoped.add(x.target.id)
+            for x in ast.walk(r):
+                if isinstance(x, ast.Name) and isinstance(x.ctx, ast.Load) and x.id in names and x.id not in scoped and \
+                        x.id not in din[n.id] and not guarded_like_a_binding(n, x.id):
+                    hits.append((n, x.id))
+        # an augmented assignment reads its target first
+        for d in n.defs:
+            if d.kind == 'aug' and isinstance(n.stmt, ast.AugAssign) and d.name in names and d.name not in din[n.id]:
+                hits.append((n, d.name))
+    return hits
+
+
+def r_unbound(ctx, entries):
+    """no UnboundLocalError: every read of a local name is preceded by a binding on every path.  Decided on the sources as
+    written (before helper inlining, which introduces flag-correlated temporaries), nested functions included."""
+    from ..core import Func
+    from ..ctx import Ctx
+    run = ctx.run
+    run.rule('R-EXC', "definite assignment: on every CFG path to a read of a local name there is a binding of it; the loop "
+                      "variable of `for x in it` counts as bound after the loop only if `it` is certainly non-empty; a read "
+                      "under the same path conditions as an earlier binding counts as bound")
+    pp = ctx.p.pristine()
+    pctx = ctx if pp is ctx.p else getattr(ctx, '_pristine_ctx', None)
+    if pctx is None:
+        pctx = Ctx(pp, run)
+        ctx._pristine_ctx = pctx
+    entries = [q for q in entries if q in pp.funcs]
+    clo = pctx.closure(*entries) if entries else set()
+    n = 0
+    for fq in sorted(clo):
+        f = pp.func(fq)
+        units = [f]
+        for sub in ast.walk(f.node):
+            if isinstance(sub, ast.FunctionDef) and sub is not f.node:
+                units.append(Func(f.module, sub, f.qual + '.<locals>.' + sub.name, f.cls))
+        for u in units:
+            try:
+                hits = possibly_unbound(pctx, u)
+            except AnalysisError:
+                raise
+            n += 1
+            seen = set()
+            for nd, name in hits:
+                if (nd.lineno, name) in seen:
+                    continue
+                seen.add((nd.lineno, name))
+                run.refute('R-EXC', u, 'definitely-assigned:%s' % name, nd.lineno,
+                           "`%s` is read at line %d of %s on a path that never binds it (e.g. a loop that does not execute, a branch "
+                           "that skips the assignment): UnboundLocalError escapes" % (name, nd.lineno, u.name),
+                           inputs='inputs that take the path without the binding (an empty sequence, an error in the last position)')
+            if not hits:
+                run.ok('R-EXC', u, 'definitely-assigned', u.node.lineno, 'every local is bound before it is read', nontrivial=False)
+    return n
